@@ -281,6 +281,44 @@ def removers_rule(ctx, report, rule="REMOVE"):
                      "%s must remove exactly %s; it removes %s (%s)" % (f.name, [k.decode() for k in keys], got, why), fn=f.path, sp=f.span, config=cfg)
 
 
+    # the core: remove_key(key, signer) removes exactly `key` from the working copy it commits; the only other content
+    # write is the signer's public-key entry (found by the 0216 sweep mutant: a remove_key that removes nothing passed)
+    f = fn_or_violate(ctx, report, rule, "Enr::<K>::remove_key")
+    if f is not None:
+        from rules.typestate import is_pubkey_method
+        an = ctx.an(f)
+        removes, others = [], []
+        for b, t in f.calls():
+            c = t.callee
+            if c is None or "BTreeMap" not in (c.fn or "") or b.cleanup:
+                continue
+            if c.name == "remove" and len(t.args) == 2:
+                k = strip(an.operand_expr(t.args[1], b.idx, len(b.stmts)))
+                for _ in range(4):
+                    if k.k == "call" and k.a[0].name in ("as_ref", "as_slice", "borrow", "deref") and k.a[1]:
+                        k = strip(k.a[1][0])
+                removes.append((b.idx, k))
+            elif c.name in ("insert", "extend", "append", "clear", "retain", "pop_first", "pop_last", "split_off", "entry", "remove_entry"):
+                if c.name == "insert" and len(t.args) == 3 and is_pubkey_method(an.operand_expr(t.args[1], b.idx, len(b.stmts)), "enr_key") is not None:
+                    continue
+                others.append(c.name)
+        from rules.typestate import commit_sites
+        cs = commit_sites(ctx, f)
+        ok = len(removes) == 1 and removes[0][1].k == "param" and removes[0][1].a[0] == 2 and not others and bool(cs) and all(an.cfg.dominates(removes[0][0], bb) for bb, _, _, _ in cs)
+        if not ok and not cs and not removes and not others:
+            # a wrapper: remove_insert(<something made of the caller's key only>, iter::empty(), signer)
+            ri = [(b, t) for b, t in f.calls() if t.callee and t.callee.local and t.callee.name == "remove_insert" and len(t.args) == 4]
+            if len(ri) == 1:
+                b, t = ri[0]
+                rk = strip(an.operand_expr(t.args[1], b.idx, len(b.stmts)))
+                ik = strip(an.operand_expr(t.args[2], b.idx, len(b.stmts)))
+                sg = strip(an.operand_expr(t.args[3], b.idx, len(b.stmts)))
+                params = {x.a[0] for x in rk.walk() if x.k == "param"}
+                ok = params == {2} and ik.k == "call" and ik.a[0].name == "empty" and "iter" in ik.a[0].fn and sg.k == "param" and sg.a[0] == 3
+        report.check(rule, "remove_key/core", ok, "remove_key removes exactly the caller's key from the copy it commits (and writes only the signer's public key besides)",
+                     "remove_key does not remove exactly the caller's key before committing: removes %s, other content writes %s" % ([short(k, 60) for _, k in removes], others), fn=f.path, sp=f.span, config=cfg)
+
+
 # ------------------------------------------------------------------ readers
 
 
